@@ -68,6 +68,10 @@ template<unsigned R, unsigned C>
 inline void out_mat (const std::string& p, const Matrix<R,C,double>& m)
 { for (unsigned i=0; i<R; i++) for (unsigned j=0; j<C; j++) out (nm(p,i,j), m[i][j]); }
 
+template<unsigned R, unsigned C>
+inline void out_cmat (const std::string& p, const Matrix<R,C,std::complex<double> >& m)
+{ for (unsigned i=0; i<R; i++) for (unsigned j=0; j<C; j++) out (nm(p,i,j), m[i][j]); }
+
 template<QBasis B>
 inline void out_quat (const std::string& p, const Quaternion<double,B>& q)
 { out (p+"0", q.s0); out (p+"1", q.s1); out (p+"2", q.s2); out (p+"3", q.s3); }
